@@ -162,13 +162,32 @@ func respectsChain(il []int, chain []int, lens []int) bool {
 	return true
 }
 
-func sequentialOutcomes(threads [][]HOp, chain []int) (map[string]bool, error) {
+// sequentialOutcomes: the outcomes of the sequential executions that are valid linearizations of a schedule in
+// which the threads [pre] ran to completion, one after the other in that order, BEFORE any other thread started
+// (real-time order: their calls precede everything else), the remaining threads interleaved arbitrarily (each in
+// program order, a continuation thread after its first part).
+func sequentialOutcomes(threads [][]HOp, chain []int, pre ...int) (map[string]bool, error) {
 	lens := make([]int, len(threads))
+	isPre := map[int]bool{}
 	for i, t := range threads {
 		lens[i] = len(t)
 	}
+	var prefix []int
+	for _, t := range pre {
+		isPre[t] = true
+		for k := 0; k < lens[t]; k++ {
+			prefix = append(prefix, t)
+		}
+	}
+	restLens := make([]int, len(threads))
+	for i := range threads {
+		if !isPre[i] {
+			restLens[i] = lens[i]
+		}
+	}
 	set := map[string]bool{}
-	for _, il := range interleavings(lens) {
+	for _, rest := range interleavings(restLens) {
+		il := append(append([]int{}, prefix...), rest...)
 		if !respectsChain(il, chain, lens) {
 			continue
 		}
@@ -305,6 +324,14 @@ func genConcPrograms(r *hutil.Rand) ([][]HOp, []int) {
 		}
 		threads = append(threads, cont)
 		return threads, []int{1, 2}
+	}
+	if r.Chance(1, 5) {
+		// the processor's main loop delivers a cleanup tick and then a login, in that order, on ONE thread, while the
+		// audit goroutine is inside a call of another session: the sweep (cut-off in the far future: it discards every
+		// pending half) must have happened before the login is looked at, whatever the contention
+		threads[0] = []HOp{{Kind: hutil.Pick(r, []string{"clean_sess", "clean_sess", "clean_logins"}), Cut: 1}, login}
+		threads = append(threads, []HOp{g.ev("8", "LOGIN", "999"), g.ev("8", hutil.Pick(r, otherTypes), "5")})
+		return threads, nil
 	}
 	switch r.Intn(5) {
 	case 0: // another session with its own login, events on a third thread
@@ -493,6 +520,19 @@ func concMain(out string, n int, seed uint64, prop string) {
 			sum.Fail("harness", "cannot interpret sequential run: "+err.Error(), threads)
 			continue
 		}
+		seqCache := map[string]map[string]bool{}
+		seqFor := func(pre []int) map[string]bool {
+			k := fmt.Sprint(pre)
+			if m, ok := seqCache[k]; ok {
+				return m
+			}
+			m, err := sequentialOutcomes(threads, chain, pre...)
+			if err != nil {
+				m = seqSet
+			}
+			seqCache[k] = m
+			return m
+		}
 		sum.Dist(fmt.Sprintf("threads_%d", len(threads)))
 		if len(chain) == 2 {
 			sum.Dist("programs_with_continuation_thread")
@@ -558,9 +598,9 @@ func concMain(out string, n int, seed uint64, prop string) {
 						}
 						sum.Dist(fmt.Sprintf("threads_before_victim_%d", len(pre)))
 						where := fmt.Sprintf("%s — T%v run first, then victim T%d paused before hook %d (%v) while T%v run", opsString(threads), pre, victim, k, res.Trace, ord)
-						if !seqSet[res.Outcome.key()] && concKeyWanted(prop, "conc:not-linearizable") {
+						if !seqFor(pre)[res.Outcome.key()] && concKeyWanted(prop, "conc:not-linearizable") {
 							sum.FailKey("oracle", "conc:not-linearizable",
-								fmt.Sprintf("%s: outcome %s equals no sequential ordering's outcome", where, res.Outcome.key()),
+								fmt.Sprintf("%s: outcome %s equals the outcome of no sequential ordering in which the calls of T%v come first", where, res.Outcome.key(), pre),
 								map[string]any{"conc": cc, "observed": res})
 						}
 						for _, f := range concPropertyOracles(threads, chain, res.Outcome) {
@@ -697,7 +737,7 @@ func replayConcParent() int {
 }
 
 func replayConc(cc concCase, prop string) int {
-	seqSet, err := sequentialOutcomes(cc.Threads, cc.Chain)
+	seqSet, err := sequentialOutcomes(cc.Threads, cc.Chain, cc.Pre...)
 	if err != nil {
 		fmt.Println("harness error:", err)
 		return 2
